@@ -81,6 +81,7 @@ class Check:
         self.assumptions: list[str] = []
         self.trusted_base: list[str] = []
         self.extra: dict = {}
+        self.memo: dict = {}  # rule-side caches (never written to the evidence)
 
     # -- registration -----------------------------------------------------------------
     def where(self, node_or_pair):
